@@ -258,6 +258,52 @@ def nested_case(item):
     return res_
 
 
+def sharedfail_case(item):
+    """One run, two scripts that force-build the same target T (`redo T`), the second asking while T's script is still running;
+    T's script then fails.  The waiter gets T's lock after the failure is recorded: T is not executed a second time in the run,
+    and both requesters (and the top-level command) fail."""
+    from .. import common, scen
+    _, cmd2, j, pause, keep, seed = item
+    req = scen.TRACE_HDR + 'echo "S $1 $$ $PPID" >&9\n%(pre)s\necho "Q $1 $$" >&9\nrc=0\n%(cmd)s T || rc=$?\necho "RC $1 $$ $rc" >&9\n[ $rc = 0 ] || { echo "E $1 $$ $rc" >&9; exit $rc; }\necho ok > "$3"\necho "E $1 $$ 0" >&9\n'
+    files = {
+        'T.do': scen.TRACE_HDR + 'echo "S $1 $$ $PPID" >&9\nsleep 0.5\necho "E $1 $$ 1" >&9\nexit 1\n',
+        'a.do': req % dict(pre='true', cmd='redo'),
+        'b.do': req % dict(pre='sleep %s' % pause, cmd=cmd2),
+        'all.do': scen.TRACE_HDR + 'echo "S $1 $$ $PPID" >&9\nredo-ifchange a b\necho "E $1 $$ 0" >&9\n',
+    }
+    pj = scen.Project(files, 'c05s')
+    anoms = []
+    obs = dict(shared_failing_target_rounds=1, second_request_begun_while_the_script_ran=0)
+    try:
+        r, _ = pj.run(['redo', '-j%d' % j] + (['-k'] if keep else []) + ['all'], timeout=60)
+        if r.status != 'exit' or r.panicked():
+            return dict(verdict='inconclusive', why='did not end normally: %s' % r.status, sample=dict(item=list(item)))
+        lines = [l.split(' ') for l in pj.trace_text().split('\n') if l]
+        pos_q_b = next((i for i, f in enumerate(lines) if f[0] == 'Q' and f[1] == 'b'), None)
+        pos_s_t = next((i for i, f in enumerate(lines) if f[0] == 'S' and f[1] == 'T'), None)
+        pos_e_t = next((i for i, f in enumerate(lines) if f[0] == 'E' and f[1] == 'T'), None)
+        runs_t = sum(1 for f in lines if f[0] == 'S' and f[1] == 'T')
+        contended = pos_q_b is not None and pos_s_t is not None and pos_e_t is not None and pos_s_t < pos_q_b < pos_e_t
+        if contended:
+            obs['second_request_begun_while_the_script_ran'] = 1
+            if runs_t != 1:
+                anoms.append(dict(key='failed-target-executed-again-in-the-same-run:waiter-after-lock', what='T (fails) was executed %d times in one run: b asked for it with `%s T` while its script ran' % (runs_t, cmd2)))
+            rcs = {f[1]: f[3] for f in lines if f[0] == 'RC'}
+            for who in ('a', 'b'):
+                if rcs.get(who) == '0':
+                    anoms.append(dict(key='swallowed-failure:shared-failing-target', what='%s: request for the failing T returned 0' % who))
+            if r.rc == 0:
+                anoms.append(dict(key='exit:expected-failure:rc=0:shared-failing-target', what='redo all exits 0'))
+    finally:
+        pj.close()
+    res_ = dict(verdict='violated' if anoms else 'held', nontrivial=bool(obs['second_request_begun_while_the_script_ran']), shape=common.shash(list(item)),
+                sample=dict(kind='shared-failing-target', second=cmd2, j=j, pause=pause, keep=keep), obs=obs, sets=dict(rebuild_reasons=['sharedfail:%s:j%d%s' % (cmd2, j, ':keep' if keep else '')]))
+    if anoms:
+        res_['violations'] = anoms[:3]
+        res_['replay'] = dict(kind='sharedfail', item=list(item))
+    return res_
+
+
 class Dispatch:
     def __init__(self, hist):
         self.hist = hist
@@ -267,6 +313,8 @@ class Dispatch:
             return lock_fail_case(tuple(item))
         if isinstance(item, (tuple, list)) and item and item[0] == 'nested':
             return nested_case(tuple(item))
+        if isinstance(item, (tuple, list)) and item and item[0] == 'sharedfail':
+            return sharedfail_case(tuple(item))
         return self.hist(item, **kw)
 
 
@@ -283,6 +331,7 @@ RULE = ('programs with 1-4 nodes whose failure is switched by a declared flag so
         'top-level redo with/without -k at -j1..3: started scripts vs must/may sets (keep-going is inherited through the run and switched on by a nested -k; '
         'without it nothing is started after the first failure known to the requesting process), exit status, nested exit statuses. '
         'Contention layer: `redo L F` / `redo -jN F L` (with and without -k) while another invocation holds L: L must not be built after F failed, and must be with -k. '
+        'Shared-failing-target layer: two scripts of one run force-build (`redo T`, or `redo T` and `redo-ifchange T`) the same target, the second asking while T runs; T fails: executed once, both requests and the command fail (-j2/-j3, with and without -k). '
         'Non-trivial: a failing command followed later by a successful command that ran scripts. Distinct: (graph shape, op sequence).')
 ASSUME = ['which siblings were already started when a failure becomes known is schedule-dependent: guided by the observation (must <= observed <= may)',
           'a successful tolerant consumer of a failed dependency is dirty and is re-executed on a later request in the same run']
@@ -295,6 +344,11 @@ def main(tier):
         for order, j in ((('L', 'F'), 1), (('F', 'L'), 2), (('L', 'G', 'F'), 1), (('G', 'F', 'L'), 3)):
             for keep in (False, True):
                 extra.append(('lockfail', order, j, keep, rep))
+    for rep in range(1 if tier == 'quick' else 5):
+        for cmd2 in ('redo', 'redo-ifchange'):
+            for j in (2, 3):
+                for keep in (False, True):
+                    extra.append(('sharedfail', cmd2, j, '0.15' if rep % 2 == 0 else '0.3', keep, rep))
     import os
     base = int(os.environ.get('VERIF_SEED', '1')) * 100000
     extra += [('nested', base + i) for i in range(40 if tier == 'quick' else 1500)]
@@ -304,6 +358,16 @@ def main(tier):
 def replay(path):
     import json
     d = json.load(open(path))
+    if d['replay'].get('kind') == 'sharedfail':
+        from .. import common
+        common.ensure_built()
+        r = sharedfail_case(tuple(d['replay']['item']))
+        print(r.get('verdict'), r.get('violations'))
+        common.cleanup_scratch()
+        if r.get('verdict') == 'violated':
+            print('VIOLATION property=%s replay=%s' % (PROP, path))
+            return 1
+        return 0
     if d['replay'].get('kind') == 'nested':
         from .. import common
         common.ensure_built()
